@@ -158,6 +158,31 @@ pub fn main(a: &Args) {
             }
             session(&batches, if s % 4 == 0 { Some(file.as_path()) } else { None }, &mut out, "lint");
         }
+        // aligned logs: the line break that ends a batch falls exactly on (or next to) a multiple of the usual
+        // buffer sizes; the first batch is padded to the byte with a record whose context is as long as needed
+        let size_of = |recs: &[Record]| -> usize { let mut v = Vec::new(); Stats { records: recs.to_vec() }.write(&mut v).unwrap(); v.len() };
+        for (k, target) in [4096usize, 8192, 16384, 32768, 65536, 8192 * 3].into_iter().enumerate() {
+            for delta in [-1i64, 0, 1] {
+                let want = (target as i64 + delta) as usize;
+                let mut first: Vec<Record> = (0..(k % 3)).map(|j| lint_record(&format!("teh{j}"), LintKind::Spelling, TokenKind::Word(None))).collect();
+                let base = size_of(&first);
+                let pad0 = lint_record("", LintKind::Spelling, TokenKind::Word(None));
+                let unit = size_of(&[pad0]);
+                if base + unit > want { continue; }
+                first.push(lint_record(&"a".repeat(want - base - unit), LintKind::Spelling, TokenKind::Word(None)));
+                if size_of(&first) != want { continue; }
+                let second = vec![lint_record("wich", LintKind::Spelling, TokenKind::Word(None)), cfg_record("SpelledNumbers")];
+                let third = vec![lint_record("zzyzxq", LintKind::Spelling, TokenKind::Word(None))];
+                session(&[first.clone(), second.clone(), third.clone()], if delta == 0 { Some(file.as_path()) } else { None }, &mut out, "aligned");
+                session(&[first, second, third], if delta == 0 { None } else { Some(file.as_path()) }, &mut out, "aligned");
+            }
+        }
+        // many records of varying length in one log (several buffers' worth)
+        for s in 0..a.num("big-logs", 3) {
+            let recs: Vec<Record> = (0..rng.range(300, 900)).map(|j| lint_record(&"x".repeat(rng.range(0, 120)), LintKind::Spelling, TokenKind::Word(None))).collect::<Vec<_>>();
+            let cut = rng.range(1, recs.len() - 1);
+            session(&[recs[..cut].to_vec(), recs[cut..].to_vec()], if s % 2 == 0 { Some(file.as_path()) } else { None }, &mut out, "big");
+        }
         // harper-wasm: apply_suggestion logs a record; generate -> import into a fresh linter -> generate
         for _ in 0..a.num("wasm-sessions", 40) {
             let r = catch(|| {
